@@ -208,7 +208,7 @@ def mutation_history(rec, rng, fac, kn, steps=12):
     for t in trees:
         query_all(t, rng, kn == "expr")
     for _ in range(steps):
-        op = rng.choice(["rotate", "rotate", "rotate", "move", "wrap", "swap", "swap", "detach", "replace", "replace"])
+        op = rng.choice(["rotate", "rotate", "rotate", "move", "wrap", "swap", "swap", "detach", "replace", "replace", "layout"])
         a = rng.choice(trees)
         try:
             nodes = S.nodes_preorder(a)
@@ -234,6 +234,22 @@ def mutation_history(rec, rng, fac, kn, steps=12):
                 l, r = n.left, n.right
                 n.set_left(r)
                 n.set_right(l)
+            elif op == "layout":
+                # the tree is drawn at some point (the layout leaves x / y / offset attributes on the
+                # nodes it saw); nodes grafted in afterwards have none of them
+                from mathy_core.layout import TreeLayout
+
+                TreeLayout().layout(S.root_of(n))
+                if rng.random() < 0.7:
+                    fresh = fac(fac(None, None, 55), fac(None, None, 56), 57)
+                    if n.left is None:
+                        n.set_left(fresh)
+                    elif n.right is None:
+                        n.set_right(fresh)
+                    else:
+                        old_child = n.left
+                        n.set_left(fresh)
+                        fresh.left.set_left(old_child)
             elif op == "replace" and n.parent is not None:
                 # the ordinary way to replace a child: set_left/set_right with the default
                 # clear_old_child_parent=False leaves the OLD child with a parent pointer to a node
